@@ -642,7 +642,72 @@ class History:
             return self.do_dup_ack_race()
         if r < 0.74:
             return self.do_binary_recovery()
+        if r < 0.76:
+            return self.do_server_ends_a_namespace()
         return self.do_server_ack()
+
+    def do_server_ends_a_namespace(self):
+        """The server disconnects one of several connected namespaces: the
+        callbacks outstanding on the others are untouched (their ids stay
+        reserved, their acknowledgements still arrive)."""
+        if len(self.nss) < 2:
+            return self.do_server_ack()
+        ns = self.rng.choice(self.nss)
+        op = ['server_disconnects_namespace', ns]
+        self.ops.append(op)
+        self.h.server_send(R.DISCONNECT, ns, None, None)
+        errs = self.h.all_errors()
+        if errs:
+            return self.fail('server DISCONNECT of one namespace: %s' %
+                             errs[0]['exc'], {'op': op})
+        self.new_sent()
+        self.nss = [n for n in self.nss if n != ns]
+        # what was outstanding on the ended namespace can no longer be
+        # answered; ids used there no longer matter
+        self.ended_out = getattr(self, 'ended_out', {})
+        self.ended_out[ns] = dict(self.out.pop(ns, {}))
+        self.used.pop(ns, None)
+        self.ctx.count('namespaces_ended_by_the_server')
+
+    def finale(self):
+        """The server disconnects every namespace that is left (the client
+        ends the transport itself), the application connects the same client
+        object again, and acknowledgements bearing ids of the previous
+        connection arrive: nothing of the previous connection is invoked."""
+        h, ctx = self.h, self.ctx
+        old = {ns: dict(d) for ns, d in self.out.items() if d}
+        for ns, d in getattr(self, 'ended_out', {}).items():
+            old.setdefault(ns, {}).update(d)
+        nss0 = list(self.style)
+        for ns in list(self.nss):
+            h.server_send(R.DISCONNECT, ns, None, None)
+        self.ops.append(['server_disconnects_every_namespace'])
+        h.clear_errors()
+        try:
+            h.api('connect', 'http://h', namespaces=nss0, wait=True)
+        except Exception as e:
+            return self.fail('connect() after the server had ended every '
+                             'namespace raised %r' % e)
+        self.mark = len(h.sent)
+        ev0 = len(self.events)
+        n = 0
+        for ns, d in sorted(old.items()):
+            for aid, tok in sorted(d.items()):
+                h.server_send(R.ACK, ns, aid, ['late', tok])
+                n += 1
+        ctx.count('stale_acks_on_a_new_connection', n)
+        ctx.count('reconnected_histories')
+        errs = h.all_errors()
+        if errs:
+            return self.fail('an ACK bearing an id of the previous connection '
+                             'was not ignored quietly: %s' % errs[0]['exc'])
+        cbs = [e for e in self.events[ev0:] if e[0] == 'callback']
+        if cbs:
+            return self.fail('after the server had ended every namespace and '
+                             'the client connected again, acknowledgements '
+                             'bearing ids of the previous connection invoked '
+                             '%r' % (cbs,), {'old_outstanding': {
+                                 ns: sorted(d) for ns, d in old.items()}})
 
     def close(self):
         self.h.close()
@@ -657,6 +722,8 @@ def run_case(ctx, k):
             h.step()
             if h.failed:
                 break
+        if not h.failed and rng.random() < 0.4:
+            h.finale()
     finally:
         h.close()
 
@@ -682,6 +749,8 @@ def run(ctx):
     ctx.require('binary_recoveries_overlaps', 3)
     ctx.require('callbacks_checked', 20)
     ctx.require('events_named_like_lifecycle_notifications', 20)
+    ctx.require('namespaces_ended_by_the_server', 10)
+    ctx.require('reconnected_histories', 10)
     ctx.require('calls_judged', 20)
     ctx.require('call_timeouts_observed', 5)
     for cls in ('correct', 'duplicate', 'zero', 'foreign', 'never_issued',
